@@ -613,7 +613,7 @@ class Subset(Family):
         for k in ((300,) if not big else (300, 257, 700)):
             d = big_star_desc(rng, k)
             for nodes in (list(range(k + 1)), list(range(k, -1, -1)), list(range(0, k + 1, 2)) + [k],
-                          rng.sample(range(k + 1), 260)):
+                          rng.sample(range(k + 1), min(260, k))):
                 yield {"desc": d, "nodes": nodes, "rp": rng.random() < 0.5, "ru": rng.random() < 0.5,
                        "form": rng.choice(["int32", "strided", "col2d", "reversed", "int64", "list"])}
         for _ in range(500 if not big else 6000):
